@@ -414,5 +414,171 @@ Proof.
         apply sub3_app. right. right. right. apply sub3_app. right. right. left. split; [assumption|].
         apply bef_cons. left. auto.
 Qed.
+
+(* ---- two bottoms ---- *)
+Lemma case_2_value A x1 x2 : (forall v, In v votes -> c2_failb (boundary A) x1 x2 v = false) ->
+  let bd := boundary A in
+  let C1 := existsb (fc1 bd x1 x2) votes in let D1 := existsb (fd1 bd x1 x2) votes in
+  let C2 := existsb (fc2 bd x1 x2) votes in let D2 := existsb (fd2 bd x1 x2) votes in
+  c2_bad C1 D1 C2 D2 = false ->
+  case_2 A x1 x2 votes = ((if C2 || D1 then (x2 :: fst A, x1 :: snd A) else (x1 :: fst A, x2 :: snd A)), true).
+Proof.
+  intros H bd C1 D1 C2 D2 Hbad. unfold case_2. destruct A as [N1 N2]. unfold boundary in *. cbn [fst snd] in *.
+  destruct (isS (nth_error N1 0) || isS (nth_error N2 0)) eqn:G.
+  - rewrite (c2_fold_value _ x1 x2 votes false false false false H Hbad). cbn [orb]. fold bd C2 D1.
+    destruct (C2 || D1); reflexivity.
+  - apply orb_false_iff in G. destruct G as [G1 G2].
+    assert (E2 : C2 = false).
+    { unfold C2, bd, fc2. destruct (nth_error N2 0); [discriminate|]. simpl. apply existsb_false. }
+    assert (E1 : D1 = false).
+    { unfold D1, bd, fd1. destruct (nth_error N1 0); [discriminate|]. simpl. apply existsb_false. }
+    rewrite E1, E2. reflexivity.
+Qed.
+
+Lemma placed_below_left v w : In v votes -> In w mu ->
+  (forall p, nth_error M1 0 = Some p -> rk v w < rk v p) -> forall l, In l (rev M1) -> rk v w < rk v l.
+Proof.
+  intros Hv Hw Hp l Hl. assert (HlS : In l sigma) by (unfold sigma; apply in_or_app; now left).
+  assert (HwS : In w sigma) by now apply in_sigma_mu.
+  assert (Hlw : l <> w).
+  { intros ->. apply (NoDup_app_disj (rev M1) (mu ++ M2) Hnd w Hl). apply in_or_app. now left. }
+  destruct (lt_dec (rk v w) (rk v l)) as [|Hn]; [assumption|exfalso].
+  assert (Hlt : rk v l < rk v w) by (apply rk_lt_of_not; auto).
+  apply in_rev in Hl. destruct M1 as [|p1 M1'] eqn:EM1; [contradiction|].
+  specialize (Hp p1 eq_refl). destruct Hl as [->|Hl]; [lia|].
+  apply (Hsp v Hv l p1 w); [|lia]. unfold sigma. apply sub3_app. right. left. split.
+  - simpl. apply bef_app. right. left. split; [now apply in_rev in Hl|now left].
+  - apply in_or_app. now left.
+Qed.
+
+Lemma placed_below_right v w : In v votes -> In w mu ->
+  (forall p, nth_error M2 0 = Some p -> rk v w < rk v p) -> forall r, In r M2 -> rk v w < rk v r.
+Proof.
+  intros Hv Hw Hp r Hr. assert (HrS : In r sigma) by (unfold sigma; apply in_or_app; right; apply in_or_app; now right).
+  assert (HwS : In w sigma) by now apply in_sigma_mu.
+  assert (Hrw : r <> w).
+  { intros ->. unfold sigma in Hnd. apply NoDup_app_r in Hnd. apply (NoDup_app_disj mu M2 Hnd w Hw Hr). }
+  destruct (lt_dec (rk v w) (rk v r)) as [|Hn]; [assumption|exfalso].
+  assert (Hlt : rk v r < rk v w) by (apply rk_lt_of_not; auto).
+  destruct M2 as [|p2 M2'] eqn:EM2; [contradiction|].
+  specialize (Hp p2 eq_refl). destruct Hr as [->|Hr]; [lia|].
+  apply (Hsp v Hv w p2 r); [|lia]. unfold sigma. rewrite app_assoc. apply sub3_app. right. right. left. split.
+  - apply in_or_app. now right.
+  - apply bef_cons. left. auto.
+Qed.
+
+Lemma double_step a b mu0 x1 x2 : mu = a :: mu0 ++ [b] ->
+  (exists v, In v votes /\ bottom_in v mu a) -> (exists v, In v votes /\ bottom_in v mu b) ->
+  ((x1 = a /\ x2 = b) \/ (x1 = b /\ x2 = a)) ->
+  exists A' mu0', case_2 (M1, M2) x1 x2 votes = (A', true) /\
+    (A' = (a :: M1, b :: M2) \/ A' = (b :: M1, a :: M2)) /\
+    Permutation mu0 mu0' /\ forall v, In v votes -> spv v (rev (fst A') ++ mu0' ++ snd A').
+Proof.
+  intros Hmu (va & Hva & Ba) (vb & Hvb & Bb) Hx.
+  assert (Ha : In a mu) by (rewrite Hmu; now left).
+  assert (Hb : In b mu) by (rewrite Hmu; right; apply in_or_app; right; now left).
+  assert (Hnm : NoDup mu) by (unfold sigma in Hnd; apply NoDup_app_r in Hnd; now apply NoDup_app_l in Hnd).
+  assert (Hab : a <> b).
+  { intros ->. rewrite Hmu in Hnm. inversion Hnm as [|? ? Hn _]. apply Hn. apply in_or_app. right. now left. }
+  assert (Hfail : forall v, In v votes -> c2_failb (boundary (M1, M2)) x1 x2 v = false).
+  { intros v Hv. destruct (nofail a v Hv Ha) as (K1 & K2 & K3). destruct (nofail b v Hv Hb) as (K4 & K5 & K6).
+    destruct Hx as [[-> ->]|[-> ->]]; now apply c2_failb_false. }
+  (* the two flags excluded by single-peakedness of sigma *)
+  assert (Hda : forall v p1, In v votes -> nth_error M1 0 = Some p1 -> ~ (rk v p1 < rk v a /\ rk v b < rk v a)).
+  { intros v p1 Hv Ep H. apply (Hsp v Hv p1 a b); [|exact H]. unfold sigma. rewrite Hmu.
+    apply sub3_app. right. right. left. split; [now apply hd_in_rev|].
+    apply bef_app. left. apply bef_cons. left. split; [reflexivity|]. apply in_or_app. right. now left. }
+  assert (Hcb : forall v p2, In v votes -> nth_error M2 0 = Some p2 -> ~ (rk v p2 < rk v b /\ rk v a < rk v b)).
+  { intros v p2 Hv Ep H. apply (Hsp v Hv a b p2); [|tauto]. unfold sigma. rewrite Hmu.
+    apply sub3_app. right. right. right. apply sub3_app. right. left. split.
+    - apply bef_cons. left. split; [reflexivity|]. apply in_or_app. right. now left.
+    - now apply hd_in in Ep. }
+  assert (Es : sigma = rev (a :: M1) ++ mu0 ++ b :: M2).
+  { unfold sigma. rewrite Hmu. simpl. rewrite <- !app_assoc. reflexivity. }
+  set (bd := boundary (M1, M2)).
+  assert (Hbd : bd = (nth_error M1 1, nth_error M1 0, nth_error M2 0, nth_error M2 1)) by reflexivity.
+  pose proof (case_2_value (M1, M2) x1 x2 Hfail) as Hval. cbv zeta in Hval. fold bd in Hval. cbn [fst snd] in Hval.
+  destruct Hx as [[-> ->]|[-> ->]].
+  - (* x1 = a, x2 = b: d1 and c2 are never set, the pair is placed as in sigma *)
+    assert (ED1 : existsb (fd1 bd a b) votes = false).
+    { destruct (existsb (fd1 bd a b) votes) eqn:E; [exfalso|reflexivity]. apply existsb_exists in E.
+      destruct E as (v & Hv & E). rewrite Hbd in E. unfold fd1 in E. apply flag_b in E. destruct E as (p & Ep & H).
+      now apply (Hda v p Hv Ep). }
+    assert (EC2 : existsb (fc2 bd a b) votes = false).
+    { destruct (existsb (fc2 bd a b) votes) eqn:E; [exfalso|reflexivity]. apply existsb_exists in E.
+      destruct E as (v & Hv & E). rewrite Hbd in E. unfold fc2 in E. apply flag_b in E. destruct E as (p & Ep & H).
+      now apply (Hcb v p Hv Ep). }
+    rewrite ED1, EC2 in Hval. exists (a :: M1, b :: M2), mu0. split.
+    + apply Hval. unfold c2_bad. destruct (existsb (fc1 bd a b) votes), (existsb (fd2 bd a b) votes); reflexivity.
+    + split; [now left|]. split; [apply Permutation_refl|]. intros v Hv. cbn [fst snd]. rewrite <- Es. now apply Hsp.
+  - (* x1 = b, x2 = a *)
+    assert (EC1 : existsb (fc1 bd b a) votes = false).
+    { destruct (existsb (fc1 bd b a) votes) eqn:E; [exfalso|reflexivity]. apply existsb_exists in E.
+      destruct E as (v & Hv & E). rewrite Hbd in E. unfold fc1 in E. apply flag_b in E. destruct E as (p & Ep & H).
+      now apply (Hcb v p Hv Ep). }
+    assert (ED2 : existsb (fd2 bd b a) votes = false).
+    { destruct (existsb (fd2 bd b a) votes) eqn:E; [exfalso|reflexivity]. apply existsb_exists in E.
+      destruct E as (v & Hv & E). rewrite Hbd in E. unfold fd2 in E. apply flag_b in E. destruct E as (p & Ep & H).
+      now apply (Hda v p Hv Ep). }
+    rewrite EC1, ED2 in Hval.
+    assert (Hbad : c2_bad false (existsb (fd1 bd b a) votes) (existsb (fc2 bd b a) votes) false = false).
+    { unfold c2_bad. destruct (existsb (fd1 bd b a) votes), (existsb (fc2 bd b a) votes); reflexivity. }
+    specialize (Hval Hbad).
+    destruct (existsb (fc2 bd b a) votes || existsb (fd1 bd b a) votes) eqn:O.
+    + exists (a :: M1, b :: M2), mu0. split; [exact Hval|]. split; [now left|]. split; [apply Permutation_refl|].
+      intros v Hv. cbn [fst snd]. rewrite <- Es. now apply Hsp.
+    + (* neither c_a nor d_b: the block is mirrored *)
+      apply orb_false_iff in O. destruct O as [OC OD].
+      assert (Hca : forall v p2, In v votes -> nth_error M2 0 = Some p2 -> ~ (rk v p2 < rk v a /\ rk v b < rk v a)).
+      { intros v p2 Hv Ep H. assert (E : existsb (fc2 bd b a) votes = true); [|congruence].
+        apply existsb_exists. exists v. split; [assumption|]. rewrite Hbd. unfold fc2. apply flag_b. eauto. }
+      assert (Hdb : forall v p1, In v votes -> nth_error M1 0 = Some p1 -> ~ (rk v p1 < rk v b /\ rk v a < rk v b)).
+      { intros v p1 Hv Ep H. assert (E : existsb (fd1 bd b a) votes = true); [|congruence].
+        apply existsb_exists. exists v. split; [assumption|]. rewrite Hbd. unfold fd1. apply flag_b. eauto. }
+      exists (b :: M1, a :: M2), (rev mu0). split; [exact Hval|]. split; [now right|].
+      split; [apply Permutation_rev|]. intros v Hv. cbn [fst snd].
+      assert (Er : rev (b :: M1) ++ rev mu0 ++ a :: M2 = rev M1 ++ rev mu ++ M2).
+      { rewrite Hmu. simpl. rewrite rev_app_distr. simpl. rewrite <- !app_assoc. reflexivity. }
+      rewrite Er. apply block_reverse; [exact Hnd|now apply Hsp|].
+      destruct (Hwf v Hv) as [Nv Iv].
+      assert (HaS : In a sigma) by now apply in_sigma_mu. assert (HbS : In b sigma) by now apply in_sigma_mu.
+      (* w = the worse of a, b in this vote *)
+      assert (Hw : exists w, (w = a \/ w = b) /\ rk v a <= rk v w /\ rk v b <= rk v w /\
+                             (forall p, nth_error M1 0 = Some p -> rk v w < rk v p) /\
+                             (forall p, nth_error M2 0 = Some p -> rk v w < rk v p)).
+      { destruct (lt_dec (rk v a) (rk v b)) as [Lab|Lab].
+        - exists b. split; [now right|]. split; [lia|]. split; [lia|]. split; intros p Ep.
+          + apply rk_lt_of_not; auto.
+            * unfold sigma. apply in_or_app. left. now apply hd_in_rev.
+            * intros ->. apply (NoDup_app_disj (rev M1) (mu ++ M2) Hnd b (hd_in_rev _ _ Ep)). apply in_or_app. now left.
+            * intros H. apply (Hdb v p Hv Ep). auto.
+          + apply rk_lt_of_not; auto.
+            * unfold sigma. apply in_or_app. right. apply in_or_app. right. now apply hd_in.
+            * intros ->. unfold sigma in Hnd. apply NoDup_app_r in Hnd. apply (NoDup_app_disj mu M2 Hnd b Hb (hd_in _ _ Ep)).
+            * intros H. apply (Hcb v p Hv Ep). auto.
+        - assert (Lba : rk v b < rk v a) by (apply rk_lt_of_not; auto).
+          exists a. split; [now left|]. split; [lia|]. split; [lia|]. split; intros p Ep.
+          + apply rk_lt_of_not; auto.
+            * unfold sigma. apply in_or_app. left. now apply hd_in_rev.
+            * intros ->. apply (NoDup_app_disj (rev M1) (mu ++ M2) Hnd a (hd_in_rev _ _ Ep)). apply in_or_app. now left.
+            * intros H. apply (Hda v p Hv Ep). auto.
+          + apply rk_lt_of_not; auto.
+            * unfold sigma. apply in_or_app. right. apply in_or_app. right. now apply hd_in.
+            * intros ->. unfold sigma in Hnd. apply NoDup_app_r in Hnd. apply (NoDup_app_disj mu M2 Hnd a Ha (hd_in _ _ Ep)).
+            * intros H. apply (Hca v p Hv Ep). auto. }
+      destruct Hw as (w & Hwab & Wa & Wb & W1 & W2).
+      assert (Hwmu : In w mu) by (destruct Hwab as [-> | ->]; assumption).
+      assert (Hmu_le : forall u, In u mu -> rk v u <= rk v w).
+      { intros u Hu. rewrite Hmu in Hu. destruct Hu as [<-|Hu]; [assumption|].
+        apply in_app_or in Hu. destruct Hu as [Hu|[<-|[]]]; [|assumption].
+        destruct (le_dec (rk v u) (rk v w)) as [|Hn]; [assumption|exfalso].
+        apply (Hsp v Hv a u b); [|lia]. unfold sigma. rewrite Hmu.
+        apply sub3_app. right. right. right. apply sub3_app. left.
+        apply in_split in Hu. destruct Hu as (l1 & l2 & ->). exists [], l1, l2, []. simpl. now rewrite <- app_assoc. }
+      intros l u Hl Hu. apply Nat.le_lt_trans with (rk v w); [now apply Hmu_le|].
+      apply in_app_or in Hl. destruct Hl as [Hl|Hl].
+      * now apply (placed_below_left v w Hv Hwmu W1).
+      * now apply (placed_below_right v w Hv Hwmu W2).
+Qed.
 End Step.
 End Complete.
